@@ -9,9 +9,9 @@ CONSTANTS
   MaxObjs = 1
   Parents = {"none"}
   Fmts = {"F1"}
-  BadOverrides = FALSE
+  BadOverrides = TRUE
   SecondReport = TRUE
-  Variant = "register_first_backup_only"
+  Variant = "register_after_fields"
 INVARIANT OverridesRestored
 CONSTRAINT Export
 CHECK_DEADLOCK FALSE
